@@ -249,6 +249,7 @@ inline void thread_data::propagate_task_group_state(std::atomic<std::uint32_t> d
         if ((ctx.*mptr_state).load(std::memory_order_relaxed) != new_state)
             task_group_context_impl::propagate_task_group_state(ctx, mptr_state, src, new_state);
     }
+    __TBB_VERIF_POINT(vp_ctx_propagate_sync, &src, 0);
     // Sync up local propagation epoch with the global one. Release fence prevents
     // reordering of possible store to *mptr_state after the sync point.
     my_context_list->epoch.store(the_context_state_propagation_epoch.load(std::memory_order_relaxed), std::memory_order_release);
